@@ -131,7 +131,7 @@ def rejects_non_attributes(ctx):
             txt = unparse(n.ast)
             if 'XSDWrongAttribute' in txt and ('self.TYPE.get_xsd_tree().is_simple_type', 'T') in guards and (p, 'T') in guards:
                 r1 = True
-            if 'TypeError' in txt and any(gt in (f"not isinstance({p}, dict)",) and lab == 'T' for gt, lab in guards):
+            if 'TypeError' in txt and any(gt == f"isinstance({p}, dict)" and lab == 'F' for gt, lab in guards):
                 r2 = True
     res.check(r1, 'R-DOM.check-before-store', f.fq, "an element of a simple type rejects any attribute with XSDWrongAttribute", key='R-DOM.check-before-store|simple-type-no-attributes')
     res.check(r2, 'R-DOM.check-before-store', f.fq, "a non-dictionary is rejected with TypeError before anything is read from it", key='R-DOM.check-before-store|non-dict')
